@@ -36,8 +36,14 @@ void do_parent_for_pp()
                  __func__, __LINE__, pc->GetOrigLine(), pc->GetOrigCol());
          log_pcf_flags(LMCB, pc->GetFlags());
          size_t level = pc->GetPpLevel();
-         Chunk  *a    = viz.at(level - 1);
-         pc->SetParent(a);
+
+         // an 'else' / 'endif' word that is not a matched directive (garbage input) has no opener
+         if (  level >= 1
+            && level - 1 < viz.size())
+         {
+            Chunk *a = viz.at(level - 1);
+            pc->SetParent(a);
+         }
       }
       else if (pc->Is(CT_PP_ENDIF))
       {
@@ -45,9 +51,13 @@ void do_parent_for_pp()
                  __func__, __LINE__, pc->GetOrigLine(), pc->GetOrigCol());
          log_pcf_flags(LMCB, pc->GetFlags());
          size_t level = pc->GetPpLevel();
-         Chunk  *a    = viz.at(level);
-         pc->SetParent(a);
-         viz.pop_back();
+
+         if (level < viz.size())
+         {
+            Chunk *a = viz.at(level);
+            pc->SetParent(a);
+            viz.pop_back();
+         }
       }
       pc = pc->GetNextNcNnl();
    }
